@@ -140,6 +140,7 @@ func init() {
 		var header *ssa.BasicBlock
 		// "name#k" selects the k-th (0-based) loop header that defines a φ called name
 		want := 0
+		phiName = strings.TrimSuffix(phiName, "?")
 		if i := strings.IndexByte(phiName, '#'); i >= 0 {
 			fmt.Sscan(phiName[i+1:], &want)
 			phiName = phiName[:i]
@@ -168,6 +169,10 @@ func init() {
 						names = append(names, ph.Comment)
 					}
 				}
+			}
+			if strings.HasSuffix(e.tagOf(args[1]), "?") {
+				// "name#k?": the caller can live without this loop (the code may have been restructured): report 2
+				return e.c.BV(2, 64), true
 			}
 			e.errf("LoopEnter: no phi %q in %s (phis: %s)", phiName, name, strings.Join(names, ","))
 		}
